@@ -237,6 +237,12 @@ def f_no_headers_sep(m):
     m["body"] = b"\r\nbody starting with an empty line\r\n"
 
 
+def f_mime_empty_boundary(m):
+    # a multipart whose boundary parameter is empty: the server has to invent one to render it, and must invent the same one every time
+    m["ctype"] = b'Content-Type: multipart/mixed; boundary=""'
+    m["body"] = b"--\r\nContent-Type: text/plain\r\n\r\npart one\r\n----\r\n"
+
+
 def f_ct_subtype_quote(m):
     # (a token may not hold a quote, but the message is what it is: the server still has to answer with well-formed strings)
     m["ctype"] = b'Content-Type: text/pl"ain; charset=us-ascii'
